@@ -62,24 +62,42 @@ Theorem C10_fraction_lowest_terms : forall w, 0 < w ->
 Proof. exact get_op_fraction_spec. Qed.
 Print Assumptions C10_fraction_lowest_terms.
 
-(* LOSSLESS TRIPLET NOTATION, unbounded: for every operator whose rotation rows are non-zero (in
-   particular every invertible one), with arbitrary integer entries in 1/24 units, printing in xyz
-   letters and parsing back yields the identical matrix and translation. Proved by induction over the
-   printed terms (strtol inverts decimal printing, fractions in lowest terms divide exactly). *)
-Theorem C10_row_roundtrip : forall x y z w nt, nt_ok nt -> (x, y, z) <> (0, 0, 0) ->
+(* LOSSLESS TRIPLET NOTATION, unbounded, ALL SIX LETTER STYLES: for every operator whose rotation rows
+   (columns, for a reciprocal-space operator) are non-zero - in particular every invertible one - with
+   arbitrary integer entries in 1/24 units, printing in x/X/a/A (resp. h/H) letters and parsing back
+   yields the identical matrix and translation and the notation the letters imply. Proved once in a
+   Section over an abstract letter set (TripletRT.v) by induction over the printed terms (strtol inverts
+   decimal printing, fractions in lowest terms divide exactly) and instantiated for the six styles. *)
+Theorem C10_row_roundtrip : forall x y z w nt, nt_ok 120 nt -> (x, y, z) <> (0, 0, 0) ->
   parse_triplet_part (make_triplet_part (x, y, z) w 120) nt = Ok ((x, y, z, w), 120).
-Proof. exact row_roundtrip_nt. Qed.
+Proof. exact (row_roundtrip_nt 120 Lx 120 Ix1 Fx Cx Ax). Qed.
 Print Assumptions C10_row_roundtrip.
 
-Theorem C10_triplet_roundtrip_xyz : forall a, nt_ok (nota a) -> rows_nonzero a ->
+Theorem C10_triplet_roundtrip_real : forall a st ntv, real_style st ntv -> nota a <> 104 -> rows_nonzero a ->
+  exists s, triplet a st = Some s /\ parse_triplet s 32 = Ok (mkOp (rot a) (tran a) ntv).
+Proof. exact triplet_roundtrip_real. Qed.
+Print Assumptions C10_triplet_roundtrip_real.
+
+Theorem C10_triplet_roundtrip_xyz : forall a, (nota a = 32 \/ nota a = 120) -> rows_nonzero a ->
   exists s, triplet a 32 = Some s /\ parse_triplet s 32 = Ok (mkOp (rot a) (tran a) 120).
 Proof. exact triplet_roundtrip_xyz. Qed.
 Print Assumptions C10_triplet_roundtrip_xyz.
 
+Theorem C10_triplet_roundtrip_hkl : forall a st, (st = 104 \/ st = 72) -> nota a = 104 -> tran a = (0,0,0) ->
+  cols_nonzero a ->
+  exists s, triplet a st = Some s /\ parse_triplet s 32 = Ok (mkOp (rot a) (0,0,0) 104).
+Proof. exact triplet_roundtrip_hkl. Qed.
+Print Assumptions C10_triplet_roundtrip_hkl.
+
+(* the hypotheses are satisfiable: a non-trivial operator in each family *)
+Example C10_roundtrip_nonvacuous :
+  real_style 97 96 /\ rows_nonzero (mkOp ((0,-24,0),(24,-24,0),(0,0,24)) (0,0,8) 32) /\
+  cols_nonzero (mkOp ((12,12,0),(-12,12,0),(0,0,24)) (0,0,0) 104).
+Proof. unfold real_style, rows_nonzero, cols_nonzero; cbn; repeat split; try discriminate. right; right; left; split; reflexivity. Qed.
+
 (* print -> parse round trip for every operation of every tabulated group (finite: 564 rows),
    and exact inverses of all 51 basis operators (including the non-unimodular ones).
-   The hkl/abc/upper-case styles are proved only on the table operations (_partial); the general
-   statement for those styles is covered by the exact correspondence run and the o_rt oracle. *)
+   (kept as a cross-check of the unbounded theorems above on the concrete table, all styles). *)
 Theorem C10_triplet_roundtrip_partial : forall r, In r sg_table ->
   exists g, operations r = HOk g /\ triplets_ok_b g = true.
 Proof.
